@@ -348,8 +348,9 @@ class WebSocketApp:
 
             self._stop_ping_thread()
             self.keep_running = False
-            if self.sock:
-                self.sock.close()
+            sock = self.sock
+            if sock:
+                sock.close()
             close_status_code, close_reason = self._get_close_args(
                 close_frame if close_frame else None
             )
@@ -495,6 +496,14 @@ class WebSocketApp:
             ],
             reconnecting: bool = False,
         ) -> bool:
+            if not self.keep_running and not isinstance(
+                e, (KeyboardInterrupt, SystemExit)
+            ):
+                # The application has closed the connection (close() from a
+                # callback or from another thread): whatever the loop trips
+                # over on its way out is not an error of the run.
+                teardown()
+                return
             self.has_errored = True
             self._stop_ping_thread()
             if not reconnecting:
